@@ -217,7 +217,55 @@ func mutatePath(p *gpb.Path, rng *rand.Rand) string {
 	if p == nil {
 		return "nil-path"
 	}
-	switch rng.Intn(9) {
+	// elements that carry keys, in random order
+	var keyed []*gpb.PathElem
+	for _, i := range rng.Perm(len(p.Elem)) {
+		if len(p.Elem[i].GetKey()) > 0 {
+			keyed = append(keyed, p.Elem[i])
+		}
+	}
+	sortedKeys := func(e *gpb.PathElem) []string {
+		ks := make([]string, 0, len(e.Key))
+		for k := range e.Key {
+			ks = append(ks, k)
+		}
+		sort.Strings(ks)
+		return ks
+	}
+	switch rng.Intn(13) {
+	case 9:
+		// same number of keys, one of them misnamed
+		if len(keyed) > 0 {
+			e := keyed[0]
+			ks := sortedKeys(e)
+			k := ks[rng.Intn(len(ks))]
+			v := e.Key[k]
+			delete(e.Key, k)
+			e.Key[[]string{"bogus-key", k + "x", "", strings.ToUpper(k)}[rng.Intn(4)]] = v
+			return "renamed-key"
+		}
+	case 10:
+		// key names of a multi-key element rotated
+		if len(keyed) > 0 {
+			e := keyed[0]
+			ks := sortedKeys(e)
+			if len(ks) > 1 {
+				vals := make([]string, len(ks))
+				for i, k := range ks {
+					vals[i] = e.Key[k]
+				}
+				for i, k := range ks {
+					e.Key[k] = vals[(i+1)%len(ks)]
+				}
+				return "key-values-rotated"
+			}
+		}
+	case 11:
+		p.Origin = []string{"openconfig", "cli", "x"}[rng.Intn(3)]
+		return "origin-set"
+	case 12:
+		p.Target = "other-target"
+		return "target-set"
 	case 0:
 		if len(p.Elem) > 0 {
 			p.Elem[rng.Intn(len(p.Elem))].Name = ""
@@ -229,25 +277,24 @@ func mutatePath(p *gpb.Path, rng *rand.Rand) string {
 			return "nil-elem"
 		}
 	case 2:
-		for _, e := range p.Elem {
-			if len(e.GetKey()) > 0 {
-				e.Key = map[string]string{}
-				return "keys-dropped"
+		for _, e := range keyed {
+			if rng.Intn(2) == 0 && len(e.Key) > 1 {
+				delete(e.Key, sortedKeys(e)[0])
+				return "one-key-dropped"
 			}
+			e.Key = map[string]string{}
+			return "keys-dropped"
 		}
 	case 3:
-		for _, e := range p.Elem {
-			if len(e.GetKey()) > 0 {
-				e.Key["bogus-key"] = "x"
-				return "extra-key"
-			}
+		for _, e := range keyed {
+			e.Key["bogus-key"] = "x"
+			return "extra-key"
 		}
 	case 4:
-		for _, e := range p.Elem {
-			for k := range e.GetKey() {
-				e.Key[k] = []string{"", "*", "\x00", "18446744073709551616", "-1", "NaN", "[", "\\"}[rng.Intn(8)]
-				return "hostile-key-value"
-			}
+		for _, e := range keyed {
+			ks := sortedKeys(e)
+			e.Key[ks[rng.Intn(len(ks))]] = []string{"", "*", "\x00", "18446744073709551616", "-1", "NaN", "[", "\\"}[rng.Intn(8)]
+			return "hostile-key-value"
 		}
 	case 5:
 		p.Elem = append(p.Elem, &gpb.PathElem{Name: "no-such-node", Key: map[string]string{"a": "b"}})
@@ -393,8 +440,29 @@ func runC20(r *lib.Run) {
 							what = "repeated-updates"
 						}
 						if k == 4 {
-							rq.Prefix = &gpb.Path{Elem: []*gpb.PathElem{nil}}
-							what = "nil-prefix-elem"
+							switch i % 3 {
+							case 0:
+								rq.Prefix = &gpb.Path{Elem: []*gpb.PathElem{nil}}
+								what = "nil-prefix-elem"
+							case 1:
+								rq.Prefix = &gpb.Path{Origin: "openconfig"}
+								for _, u := range all {
+									u.Path.Origin = "cli"
+								}
+								for _, d := range rq.Delete {
+									d.Origin = "cli"
+								}
+								what = "prefix-origin-differs"
+							default:
+								rq.Prefix = &gpb.Path{Target: "dev1"}
+								for _, u := range all {
+									u.Path.Target = "dev2"
+								}
+								for _, d := range rq.Delete {
+									d.Target = "dev2"
+								}
+								what = "prefix-target-differs"
+							}
 						}
 						var b []byte
 						if tg.Name == "UnmarshalSetRequest" {
